@@ -66,7 +66,6 @@ package keeper
 // status values: Pending 1, Active 2, Tombstoned 3, Downgrade 4, Inactive 5.
 
 //@ func (Keeper).unlock
-//@ opt tier=thorough
 //@ opt prune=1
 //@ property C11 C15 C14
 //@ let vaddr = req.Validator
